@@ -10,12 +10,14 @@ import (
 	"strconv"
 	"strings"
 	"testing"
+	"time"
 
 	corev1 "k8s.io/api/core/v1"
 	"k8s.io/apimachinery/pkg/api/resource"
 	metav1 "k8s.io/apimachinery/pkg/apis/meta/v1"
 	"k8s.io/apimachinery/pkg/types"
 	"k8s.io/apimachinery/pkg/util/sets"
+	"k8s.io/client-go/tools/cache"
 	fwktype "k8s.io/kube-scheduler/framework"
 	schedconfig "k8s.io/kubernetes/pkg/scheduler/apis/config"
 	"k8s.io/kubernetes/pkg/scheduler/framework"
@@ -23,6 +25,8 @@ import (
 	apiext "github.com/koordinator-sh/koordinator/apis/extension"
 	schedulingv1alpha1 "github.com/koordinator-sh/koordinator/apis/scheduling/v1alpha1"
 	schedulerconfig "github.com/koordinator-sh/koordinator/pkg/scheduler/apis/config"
+	"github.com/koordinator-sh/koordinator/pkg/scheduler/frameworkext"
+	reservationutil "github.com/koordinator-sh/koordinator/pkg/util/reservation"
 )
 
 // C07 harness: one case = one history on one node driven through the REAL entry points
@@ -2447,4 +2451,975 @@ func TestVerifC07Exhaustive(t *testing.T) {
 	h.Extra("exhaustive", fmt.Sprintf("all histories of 1..%d ops over 2 devices x 2 pods x amounts {0,50,100} (alphabet %d): %d cases", maxLen, len(alphabet), idx))
 	h.Close("exhaustive enumeration of every history of 1-4 ops over 2 RDMA devices, 2 pods, amounts {0,50,100}: add / remove (caller-supplied) / refresh / allocate+commit; " +
 		"final ledger observed, ledger oracle on the last step; non-trivial = at least 2 ops")
+}
+
+
+// ---------------------------------------------------------------------------------------------------------------
+// C07 "events" harness: (1) the REAL informer handlers (onPodAdd / onPodUpdate / onPodDelete and, in front of them,
+// the reservation handler NewReservationToPodEventHandler(…, IsObjValidActiveReservation) exactly as
+// registerPodEventHandler wires them) are driven with objects in every SHAPE client-go produces - the typed object,
+// cache.DeletedFinalStateUnknown{Obj: …} BY VALUE - and, in a malformed stream, shapes it never produces (a pointer
+// to a tombstone, a tombstone holding another type, nil, an object of another type);
+// (2) between the mutating events READ-ONLY pipeline steps run against the live cache: a preemption dry-run
+// (PreFilter of a preemptor, RemovePod over >= 3 victims that share GPUs, Filter, AddPod of reprieved victims, Filter)
+// and PreRestoreReservation + RestoreReservation over reservations with >= 2 owner pods on one GPU (+ Filter, +
+// RemovePod of owner pods).  After EVERY read-only step the whole book is read again.
+//
+// Oracle (independent of the model): the harness keeps its own record of who holds what (a well-formed add / delete /
+// reservation event changes it, garbage does not);
+//   * after every step: every live pod's recorded allocation is exactly what the harness recorded (C07:record-ne-live-allocation),
+//     plus all clauses of checkLedger (used = sum of live, free = total - used, allocateSet = live);
+//   * after a read-only step the book (totals, used, free, per-pod records, with key presence) is bit-for-bit what it
+//     was before (C07:readonly-step-changed-book);
+//   * after a delete event in a well-formed shape the pod's / reservation's devices are released (C07:delete-not-released:*).
+// Reservation tombstones: FilteringResourceEventHandler runs IsObjValidActiveReservation on the TOMBSTONE, which is
+// not a *Reservation => the event is dropped before ReservationToPodEventHandler.OnDelete can unwrap it and the
+// reservation's devices are never released.  The stream is always generated and compared with the model (which follows
+// the code); the oracle clause for it is armed with VERIF_C07_RSVTOMB=1 (fingerprint
+// C07:delete-not-released:reservation-tombstone), otherwise it is tagged `finding:rsv-tombstone-dropped`.
+// ---------------------------------------------------------------------------------------------------------------
+
+const (
+	c07ShObj = iota
+	c07ShTomb
+	c07ShPtrTomb
+	c07ShTombOther
+	c07ShNil
+	c07ShOther
+)
+
+// the object handed to a handler for the typed object `o` in the given shape
+func c07Shaped(shape int, o interface{}, key string) interface{} {
+	switch shape {
+	case c07ShObj:
+		return o
+	case c07ShTomb:
+		return cache.DeletedFinalStateUnknown{Key: key, Obj: o}
+	case c07ShPtrTomb:
+		return &cache.DeletedFinalStateUnknown{Key: key, Obj: o}
+	case c07ShTombOther:
+		return cache.DeletedFinalStateUnknown{Key: key, Obj: &corev1.Node{ObjectMeta: metav1.ObjectMeta{Name: "x"}}}
+	case c07ShNil:
+		return nil
+	default:
+		return &corev1.ConfigMap{ObjectMeta: metav1.ObjectMeta{Name: "x"}}
+	}
+}
+
+func c07EvPodObj(id int, g c07Groups, nodeName string) *corev1.Pod {
+	var al apiext.DeviceAllocations
+	if len(g) > 0 {
+		al = g.api()
+	}
+	pod := c07Pod(id, al, nodeName)
+	pod.UID = types.UID(fmt.Sprintf("uid-%d", id))
+	return pod
+}
+
+// a Reservation whose reserve pod is named "p<id>" (NewReservePod: name = UID)
+func c07RsvObj(id int, g c07Groups, valid, assigned bool, phase schedulingv1alpha1.ReservationPhase, policy schedulingv1alpha1.ReservationAllocatePolicy) *schedulingv1alpha1.Reservation {
+	r := &schedulingv1alpha1.Reservation{ObjectMeta: metav1.ObjectMeta{Name: fmt.Sprintf("r%d", id), UID: types.UID(fmt.Sprintf("p%d", id))}}
+	r.Spec.Template = &corev1.PodTemplateSpec{}
+	r.Spec.AllocatePolicy = policy
+	if valid {
+		r.Spec.Owners = []schedulingv1alpha1.ReservationOwner{{Object: &corev1.ObjectReference{Kind: "Pod", Name: "owner"}}}
+		r.Spec.TTL = &metav1.Duration{Duration: 30 * time.Minute}
+	}
+	if len(g) > 0 {
+		_ = apiext.SetDeviceAllocations(r, g.api())
+	}
+	if assigned {
+		r.Status.NodeName = c07Node
+	}
+	r.Status.Phase = phase
+	return r
+}
+
+func c07DRTok(t int, dr deviceResources) string {
+	ms := make([]int, 0, len(dr))
+	for m := range dr {
+		ms = append(ms, m)
+	}
+	sort.Ints(ms)
+	s := strconv.Itoa(len(ms))
+	for _, m := range ms {
+		s += fmt.Sprintf(" %d %s", m, c07ValsOf(t, dr[m]).str())
+	}
+	return s
+}
+
+func c07RLBook(rl corev1.ResourceList) string {
+	names := make([]string, 0, len(rl))
+	for n := range rl {
+		names = append(names, string(n))
+	}
+	sort.Strings(names)
+	var sb strings.Builder
+	for _, n := range names {
+		q := rl[corev1.ResourceName(n)]
+		fmt.Fprintf(&sb, "%s=%d;", n, q.Value())
+	}
+	return sb.String()
+}
+
+// the whole book with key presence: per type and minor total / free / used, per pod the allocation record
+func c07Book(nd *nodeDevice) string {
+	if nd == nil {
+		return ""
+	}
+	sum := nd.getNodeDeviceSummary()
+	var lines []string
+	dump := func(tag string, m map[schedulingv1alpha1.DeviceType]deviceResources) {
+		for dt, dr := range m {
+			for minor, rl := range dr {
+				lines = append(lines, fmt.Sprintf("%s %s %03d %s", tag, dt, minor, c07RLBook(rl)))
+			}
+		}
+	}
+	dump("total", sum.DeviceTotalDetail)
+	dump("free", sum.DeviceFreeDetail)
+	dump("used", sum.DeviceUsedDetail)
+	for dt, pods := range sum.AllocateSet {
+		for name, rec := range pods {
+			for minor, rl := range rec {
+				lines = append(lines, fmt.Sprintf("pod %s %s %03d %s", dt, name, minor, c07RLBook(rl)))
+			}
+			if len(rec) == 0 {
+				lines = append(lines, fmt.Sprintf("pod %s %s -", dt, name))
+			}
+		}
+	}
+	sort.Strings(lines)
+	return strings.Join(lines, "\n")
+}
+
+type c07EvPod struct {
+	id  int
+	g   c07Groups
+	rsv int // reservation (reserve-pod id) the pod is an owner of; 0 = none
+}
+
+type c07EvRsv struct {
+	id     int
+	g      c07Groups
+	policy schedulingv1alpha1.ReservationAllocatePolicy
+	owners []int // every pod ever assigned to it (the reservation cache's AssignedPods); a deleted one has no record
+}
+
+type c07EvCase struct {
+	*c07Case
+	pl      *Plugin
+	podH    cache.ResourceEventHandler
+	rsvH    cache.ResourceEventHandler
+	rcache  *frameworkext.FakeReservationCache
+	node    *corev1.Node
+	ni      *framework.NodeInfo
+	mem     int64
+	pods    []*c07EvPod
+	rsvs    []*c07EvRsv
+	nextRsv int
+	armTomb bool
+	roSteps int
+}
+
+// my own record of every live holder, as minor -> values
+func (c *c07EvCase) checkRecords(what string, l *c07Ledger) {
+	for id, al := range c.live[0] {
+		want := map[int]c07Vals{}
+		for _, a := range al {
+			var v c07Vals
+			for k := 0; k < c07D; k++ {
+				v[k] = a.vec.val(k)
+			}
+			want[a.minor] = v // one entry per minor in this harness
+		}
+		got, ok := l.pods[[2]int{0, id}]
+		if !ok {
+			continue // reported by checkLedger (allocset-ne-live)
+		}
+		same := len(got) == len(want)
+		for m, v := range want {
+			if got[m] != v {
+				same = false
+			}
+		}
+		if !same {
+			c.h.Fail("C07:record-ne-live-allocation", "%s: holder %d is recorded with %v but holds %v", what, id, got, want)
+			return
+		}
+	}
+}
+
+func (c *c07EvCase) afterMutation(kind, what string, before *c07Ledger) {
+	c.cur = c.emitLedger()
+	c.checkRecords(what, c.cur)
+	c.checkLedger(kind, before, c.cur)
+}
+
+// a read-only step: run f, read the whole book again, compare
+func (c *c07EvCase) readOnly(what string, f func()) bool {
+	h := c.h
+	nd := c.nd()
+	bookBefore := c07Book(nd)
+	before := c.cur
+	if h.Guard(f) {
+		h.Obs("panic")
+		return false
+	}
+	c.roSteps++
+	c.cur = c.emitLedger()
+	if bookAfter := c07Book(c.nd()); bookAfter != bookBefore {
+		h.Fail("C07:readonly-step-changed-book", "%s changed the book of the live cache:\n--- before\n%s\n--- after\n%s", what, bookBefore, bookAfter)
+	}
+	c.checkRecords(what, c.cur)
+	c.checkLedger("absent", before, c.cur)
+	return true
+}
+
+func (c *c07EvCase) fracVec(amount int64) c07Vec {
+	return c07Vec{amount, amount * c.mem / 100, amount}
+}
+
+func (c *c07EvCase) healthyMinors() []int {
+	var ms []int
+	for _, d := range c.inv[0] {
+		if d.healthy {
+			ms = append(ms, d.minor)
+		}
+	}
+	return ms
+}
+
+func (c *c07EvCase) findRsv(id int) *c07EvRsv {
+	for _, rv := range c.rsvs {
+		if rv.id == id {
+			return rv
+		}
+	}
+	return nil
+}
+
+func (c *c07EvCase) dropPod(id int) {
+	for i, p := range c.pods {
+		if p.id == id {
+			c.pods = append(c.pods[:i:i], c.pods[i+1:]...)
+			return
+		}
+	}
+}
+
+func (c *c07EvCase) dropRsv(id int) {
+	for i, rv := range c.rsvs {
+		if rv.id == id {
+			c.rsvs = append(c.rsvs[:i:i], c.rsvs[i+1:]...)
+			return
+		}
+	}
+}
+
+func (c *c07EvCase) rInfo(rv *c07EvRsv) *frameworkext.ReservationInfo {
+	ri := frameworkext.NewReservationInfo(c07RsvObj(rv.id, rv.g, true, true, schedulingv1alpha1.ReservationAvailable, rv.policy))
+	for _, o := range rv.owners {
+		ri.AddAssignedPod(c07EvPodObj(o, nil, c07Node))
+	}
+	return ri
+}
+
+// ---- mutating events ----
+
+func (c *c07EvCase) evPodAdd(shape int, p *c07EvPod) {
+	h := c.h
+	h.Op("evadd %d %d 1 0 %s", shape, p.id, p.g.tok())
+	before := c.cur
+	if h.Guard(func() { c.podH.OnAdd(c07Shaped(shape, c07EvPodObj(p.id, p.g, c07Node), "default/p"), false) }) {
+		h.Obs("panic")
+		return
+	}
+	h.Tag(fmt.Sprintf("event:pod-add:shape%d", shape))
+	kind := "absent"
+	if shape == c07ShObj {
+		kind = "raw-add"
+		for _, t := range p.g.types() {
+			c.noteAdd(t, p.id, p.g[t], before)
+		}
+		c.pods = append(c.pods, p)
+		if p.rsv != 0 {
+			if rv := c.findRsv(p.rsv); rv != nil {
+				rv.owners = append(rv.owners, p.id)
+			}
+		}
+	}
+	c.afterMutation(kind, "pod add", before)
+}
+
+func (c *c07EvCase) evPodUpdate(so, sn int, p *c07EvPod, terminated bool) {
+	h := c.h
+	h.Op("evupd %d %d %d 1 1 %d %s %s", so, sn, p.id, vB(terminated), p.g.tok(), p.g.tok())
+	before := c.cur
+	mid := before
+	if so == c07ShObj && sn == c07ShObj && !terminated {
+		mid = c.midLedger(p.id, p.g.api())
+	}
+	if h.Guard(func() {
+		np := c07EvPodObj(p.id, p.g, c07Node)
+		if terminated {
+			np.Status.Phase = corev1.PodSucceeded
+		}
+		c.podH.OnUpdate(c07Shaped(so, c07EvPodObj(p.id, p.g, c07Node), "default/p"), c07Shaped(sn, np, "default/p"))
+	}) {
+		h.Obs("panic")
+		return
+	}
+	h.Tag(fmt.Sprintf("event:pod-update:shape%d-%d", so, sn))
+	kind := "absent"
+	if so == c07ShObj && sn == c07ShObj {
+		kind = "release"
+		for _, t := range p.g.types() {
+			c.noteRemove(t, p.id, p.g[t])
+			if !terminated {
+				c.noteAdd(t, p.id, p.g[t], mid)
+			}
+		}
+		if terminated {
+			c.dropPod(p.id)
+		}
+	}
+	c.afterMutation(kind, "pod update", before)
+}
+
+func (c *c07EvCase) evPodDelete(shape int, p *c07EvPod) {
+	h := c.h
+	h.Op("evdel %d %d 1 %s", shape, p.id, p.g.tok())
+	before := c.cur
+	if h.Guard(func() { c.podH.OnDelete(c07Shaped(shape, c07EvPodObj(p.id, p.g, c07Node), fmt.Sprintf("default/p%d", p.id))) }) {
+		h.Obs("panic")
+		return
+	}
+	h.Tag(fmt.Sprintf("event:pod-delete:shape%d", shape))
+	kind := "absent"
+	wellFormed := shape == c07ShObj || shape == c07ShTomb
+	_, wasLive := c.live[0][p.id]
+	if wellFormed {
+		kind = "release"
+		for _, t := range p.g.types() {
+			c.noteRemove(t, p.id, p.g[t])
+		}
+		c.dropPod(p.id)
+	}
+	c.cur = c.emitLedger()
+	if wellFormed && wasLive {
+		if _, still := c.cur.pods[[2]int{0, p.id}]; still {
+			what := "pod-object"
+			if shape == c07ShTomb {
+				what = "pod-tombstone"
+			}
+			h.Fail("C07:delete-not-released:"+what, "pod %d was deleted (delivered as %s) but its devices are still recorded as in use", p.id, what)
+		}
+	}
+	c.checkRecords("pod delete", c.cur)
+	c.checkLedger(kind, before, c.cur)
+}
+
+func c07Phase(active, terminated bool) schedulingv1alpha1.ReservationPhase {
+	switch {
+	case terminated:
+		return schedulingv1alpha1.ReservationSucceeded
+	case active:
+		return schedulingv1alpha1.ReservationAvailable
+	default:
+		return schedulingv1alpha1.ReservationPending
+	}
+}
+
+// reservation add: valid / assigned / phase decide whether the filter lets it through
+func (c *c07EvCase) evRsvAdd(shape int, rv *c07EvRsv, valid, assigned, available bool) {
+	h := c.h
+	active := assigned && available
+	h.Op("rvadd %d %d %d %d %d 0 %s", shape, rv.id, vB(valid), vB(active), vB(assigned), rv.g.tok())
+	before := c.cur
+	if h.Guard(func() {
+		c.rsvH.OnAdd(c07Shaped(shape, c07RsvObj(rv.id, rv.g, valid, assigned, c07Phase(available, false), rv.policy), "r"), false)
+	}) {
+		h.Obs("panic")
+		return
+	}
+	h.Tag(fmt.Sprintf("event:rsv-add:shape%d", shape))
+	kind := "absent"
+	if shape == c07ShObj && valid && active {
+		kind = "raw-add"
+		for _, t := range rv.g.types() {
+			c.noteAdd(t, rv.id, rv.g[t], before)
+		}
+		c.rsvs = append(c.rsvs, rv)
+	} else {
+		h.Tag("event:rsv-add:filtered")
+	}
+	c.afterMutation(kind, "reservation add", before)
+}
+
+// reservation update of a live (valid, active) reservation: same object again, or it becomes Succeeded (=> released)
+func (c *c07EvCase) evRsvUpdate(rv *c07EvRsv, succeeded bool) {
+	h := c.h
+	h.Op("rvupd 0 0 %d 1 1 1 0 1 %d 1 %d %s %s", rv.id, vB(!succeeded), vB(succeeded), rv.g.tok(), rv.g.tok())
+	before := c.cur
+	mid := before
+	if !succeeded {
+		mid = c.midLedger(rv.id, rv.g.api())
+	}
+	if h.Guard(func() {
+		c.rsvH.OnUpdate(c07RsvObj(rv.id, rv.g, true, true, schedulingv1alpha1.ReservationAvailable, rv.policy),
+			c07RsvObj(rv.id, rv.g, true, true, c07Phase(true, succeeded), rv.policy))
+	}) {
+		h.Obs("panic")
+		return
+	}
+	h.Tag(fmt.Sprintf("event:rsv-update:succeeded%d", vB(succeeded)))
+	for _, t := range rv.g.types() {
+		c.noteRemove(t, rv.id, rv.g[t])
+		if !succeeded {
+			c.noteAdd(t, rv.id, rv.g[t], mid)
+		}
+	}
+	if succeeded {
+		c.dropRsv(rv.id)
+	}
+	c.cur = c.emitLedger()
+	if succeeded {
+		if _, still := c.cur.pods[[2]int{0, rv.id}]; still {
+			h.Fail("C07:delete-not-released:reservation-succeeded", "reservation %d became Succeeded but its devices are still recorded as in use", rv.id)
+		}
+	}
+	c.checkRecords("reservation update", c.cur)
+	c.checkLedger("release", before, c.cur)
+}
+
+func (c *c07EvCase) evRsvDelete(shape int, rv *c07EvRsv) {
+	h := c.h
+	h.Op("rvdel %d %d 1 1 1 0 %s", shape, rv.id, rv.g.tok())
+	before := c.cur
+	if h.Guard(func() {
+		c.rsvH.OnDelete(c07Shaped(shape, c07RsvObj(rv.id, rv.g, true, true, schedulingv1alpha1.ReservationAvailable, rv.policy), fmt.Sprintf("r%d", rv.id)))
+	}) {
+		h.Obs("panic")
+		return
+	}
+	h.Tag(fmt.Sprintf("event:rsv-delete:shape%d", shape))
+	kind := "absent"
+	released := false
+	switch {
+	case shape == c07ShObj:
+		released = true
+	case shape == c07ShTomb:
+		// the property's reading: a tombstone is a delete.  The code drops it in the filter (see the header).
+		if c.armTomb {
+			released = true
+		} else {
+			_, still := c07Read(c.nd()).pods[[2]int{0, rv.id}]
+			if still {
+				h.Tag("finding:rsv-tombstone-dropped")
+			} else {
+				released = true
+			}
+		}
+	}
+	if released {
+		kind = "release"
+		for _, t := range rv.g.types() {
+			c.noteRemove(t, rv.id, rv.g[t])
+		}
+		c.dropRsv(rv.id)
+	}
+	c.cur = c.emitLedger()
+	if released {
+		if _, still := c.cur.pods[[2]int{0, rv.id}]; still {
+			what := "reservation-object"
+			if shape == c07ShTomb {
+				what = "reservation-tombstone"
+			}
+			h.Fail("C07:delete-not-released:"+what, "reservation %d was deleted (delivered as %s) but its devices are still recorded as in use", rv.id, what)
+		}
+	}
+	c.checkRecords("reservation delete", c.cur)
+	c.checkLedger(kind, before, c.cur)
+}
+
+// ---- read-only cycles ----
+
+type c07Cycle struct {
+	cs        fwktype.CycleState
+	pod       *corev1.Pod
+	req       c07Vec
+	cnt       int
+	restored  bool
+	preFilter bool
+}
+
+func (c *c07EvCase) beginCycle() *c07Cycle {
+	h, r := c.h, c.r
+	cy := &c07Cycle{cs: framework.NewCycleState(), cnt: 1}
+	amount := int64(r.Pick([]int64{20, 50, 80, 100, 100}))
+	cy.req = c07Vec{amount, -1, amount}
+	podReq := corev1.ResourceList{
+		apiext.ResourceGPUCore:        *resource.NewQuantity(amount, resource.DecimalSI),
+		apiext.ResourceGPUMemoryRatio: *resource.NewQuantity(amount, resource.DecimalSI),
+	}
+	cy.pod = c07EvPodObj(900, nil, "")
+	cy.pod.Spec.Containers = []corev1.Container{{Name: "c", Resources: corev1.ResourceRequirements{Requests: podReq, Limits: podReq}}}
+	h.Op("robegin")
+	c.readOnly("PreFilter", func() {
+		_, st := c.pl.PreFilter(context.TODO(), cy.cs, cy.pod, nil)
+		cy.preFilter = st.IsSuccess()
+	})
+	h.Tag("ro:PreFilter")
+	return cy
+}
+
+func (c *c07EvCase) obsDry(cy *c07Cycle) {
+	h := c.h
+	state, st := getPreFilterState(cy.cs)
+	if !st.IsSuccess() {
+		h.Obs("q ?")
+		return
+	}
+	h.Obs("q %s", c07DRTok(0, state.preemptibleDevices[c07Node][schedulingv1alpha1.GPU]))
+	type ent struct {
+		id int
+		dr deviceResources
+	}
+	var es []ent
+	for uid, m := range state.preemptibleInRRs[c07Node] {
+		id, err := strconv.Atoi(strings.TrimPrefix(string(uid), "p"))
+		if err != nil {
+			id = 999
+		}
+		if dr := m[schedulingv1alpha1.GPU]; len(dr) > 0 {
+			es = append(es, ent{id, dr})
+		}
+	}
+	sort.Slice(es, func(i, j int) bool { return es[i].id < es[j].id })
+	for _, e := range es {
+		h.Obs("qr %d %s", e.id, c07DRTok(0, e.dr))
+	}
+}
+
+// Plugin.RemovePod / AddPod of a (possibly no longer live) pod; rsvID = what the reservation cache answers for it
+func (c *c07EvCase) dryPod(cy *c07Cycle, remove bool, id int, rsvID int) {
+	h := c.h
+	rv := c.findRsv(rsvID)
+	if remove {
+		h.Op("rorm %d %d %d", id, vB(rv != nil), rsvID)
+	} else {
+		h.Op("roadd %d %d %d", id, vB(rv != nil), rsvID)
+	}
+	if rv != nil {
+		c.rcache.RInfo = c.rInfo(rv)
+	} else {
+		c.rcache.RInfo = nil
+	}
+	victim := c07EvPodObj(id, nil, c07Node)
+	pi, _ := framework.NewPodInfo(victim)
+	ok := c.readOnly("RemovePod/AddPod", func() {
+		if remove {
+			c.pl.RemovePod(context.TODO(), cy.cs, cy.pod, pi, c.ni)
+		} else {
+			c.pl.AddPod(context.TODO(), cy.cs, cy.pod, pi, c.ni)
+		}
+	})
+	c.rcache.RInfo = nil
+	if !ok {
+		return
+	}
+	if remove {
+		h.Tag("ro:RemovePod")
+	} else {
+		h.Tag("ro:AddPod")
+	}
+	if rv != nil {
+		h.Tag("ro:victim-in-reservation")
+	}
+	c.obsDry(cy)
+}
+
+func (c *c07EvCase) dryFilter(cy *c07Cycle) {
+	h := c.h
+	if cy.restored {
+		// with a restore state Filter goes through tryAllocateFromReusable: run for its (absent) effect on the book only
+		h.Op("roany")
+		c.readOnly("Filter (restore state)", func() { c.pl.Filter(context.TODO(), cy.cs, cy.pod, c.ni) })
+		h.Tag("ro:Filter-with-restore-state")
+		return
+	}
+	h.Op("rofil %d %s %d %s", vB(len(c.infoMin[0]) > 0), c07IntsTok(c.infoMin[0]), cy.cnt, cy.req.tok())
+	var st *fwktype.Status
+	if !c.readOnly("Filter", func() { st = c.pl.Filter(context.TODO(), cy.cs, cy.pod, c.ni) }) {
+		return
+	}
+	h.Obs("filter %d", vB(st.IsSuccess()))
+	h.Tag(fmt.Sprintf("ro:Filter:%d", vB(st.IsSuccess())))
+	// oracle: the preemptor fits iff some GPU has request <= total - (used - what the removed victims hold there);
+	// evaluated on the implementation's own preemptible map and the value ledger
+	state, pst := getPreFilterState(cy.cs)
+	if !pst.IsSuccess() {
+		return
+	}
+	pre := state.preemptibleDevices[c07Node][schedulingv1alpha1.GPU]
+	fits := false
+	for _, d := range c.inv[0] {
+		row := c.cur.row(0, d.minor)
+		if row.t == (c07Vals{}) {
+			continue
+		}
+		p := c07ValsOf(0, pre[d.minor])
+		ok := true
+		for k := 0; k < c07D; k++ {
+			if cy.req.val(k) > c07Max0(row.t[k]-c07Max0(row.u[k]-p[k])) {
+				ok = false
+			}
+		}
+		fits = fits || ok
+	}
+	if fits != st.IsSuccess() {
+		h.Fail("C07:dry-run-filter-verdict", "Filter of a preemptor requesting %v answered %v although fits=%v on total - (used - preemptible)", cy.req, st, fits)
+	}
+}
+
+func (c *c07EvCase) rsvListTok(l []*c07EvRsv) string {
+	s := strconv.Itoa(len(l))
+	for _, rv := range l {
+		s += fmt.Sprintf(" %d %s", rv.id, c07IntsTok(rv.owners))
+	}
+	return s
+}
+
+func (c *c07EvCase) restore(cy *c07Cycle, matched, unmatched []*c07EvRsv) {
+	h := c.h
+	h.Op("rorst %s %s", c.rsvListTok(matched), c.rsvListTok(unmatched))
+	var ms, us []*frameworkext.ReservationInfo
+	for _, rv := range matched {
+		ms = append(ms, c.rInfo(rv))
+	}
+	for _, rv := range unmatched {
+		us = append(us, c.rInfo(rv))
+	}
+	var out interface{}
+	if !c.readOnly("RestoreReservation", func() {
+		c.pl.PreRestoreReservation(context.TODO(), cy.cs, cy.pod)
+		out, _ = c.pl.RestoreReservation(context.TODO(), cy.cs, cy.pod, ms, us, c.ni)
+	}) {
+		return
+	}
+	cy.restored = true
+	h.Tag("ro:RestoreReservation")
+	rs, _ := out.(*nodeReservationRestoreStateData)
+	if rs == nil {
+		h.Obs("restore nil")
+		return
+	}
+	gpu := schedulingv1alpha1.GPU
+	side := func(n int, l []reusableAlloc) {
+		for _, a := range l {
+			id, err := strconv.Atoi(strings.TrimPrefix(a.rInfo.Pod.Name, "p"))
+			if err != nil {
+				id = 999
+			}
+			h.Obs("ra %d %d %s", n, id, c07DRTok(0, a.allocatable[gpu]))
+			h.Obs("rb %d %d %s", n, id, c07DRTok(0, a.allocated[gpu]))
+			h.Obs("rc %d %d %s", n, id, c07DRTok(0, a.remained[gpu]))
+			if len(a.rInfo.AssignedPods) >= 2 {
+				h.Tag("ro:restore:owners>=2")
+			}
+		}
+	}
+	side(0, rs.matched)
+	side(1, rs.unmatched)
+	h.Obs("rm 0 %s", c07DRTok(0, rs.mergedMatchedAllocatable[gpu]))
+	h.Obs("rm 1 %s", c07DRTok(0, rs.mergedMatchedAllocated[gpu]))
+	h.Obs("rm 2 %s", c07DRTok(0, rs.mergedUnmatchedUsed[gpu]))
+}
+
+func TestVerifC07Events(t *testing.T) {
+	h := vOpen("C07")
+	if h == nil {
+		t.Skip("VERIF_OUT not set")
+	}
+	armTomb := os.Getenv("VERIF_C07_RSVTOMB") == "1"
+	node := &corev1.Node{ObjectMeta: metav1.ObjectMeta{Name: c07Node}}
+	suit := newPluginTestSuit(t, []*corev1.Node{node})
+	p, err := suit.proxyNew(context.TODO(), getDefaultArgs(), suit.Framework)
+	if err != nil {
+		t.Fatalf("plugin: %v", err)
+	}
+	pl := p.(*Plugin)
+	rcache, _ := pl.handle.GetReservationCache().(*frameworkext.FakeReservationCache)
+	if rcache == nil {
+		t.Fatalf("fixture: no FakeReservationCache")
+	}
+	nodeInfo := framework.NewNodeInfo()
+	nodeInfo.SetNode(node)
+
+	n := h.N(500, 10000)
+	for idx := 0; idx < n; idx++ {
+		r := h.Begin(idx)
+		if r == nil {
+			continue
+		}
+		pl.nodeDeviceCache = newNodeDeviceCache()
+		rcache.RInfo = nil
+		base := &c07Case{h: h, r: r, cache: pl.nodeDeviceCache, exact: true, histX: true, sched: true, nextPod: 1, cur: &c07Ledger{rows: map[[2]int]*c07Row{}, pods: map[[2]int]map[int]c07Vals{}}}
+		for tt := 0; tt < 3; tt++ {
+			base.live[tt] = map[int][]c07Alloc{}
+		}
+		base.inPlay = []int{0}
+		base.da[0] = 3
+		c := &c07EvCase{c07Case: base, pl: pl, rcache: rcache, node: node, ni: nodeInfo, nextRsv: 500, armTomb: armTomb}
+		// the handlers, wired as registerPodEventHandler does (tie_event_wiring checks the source)
+		podH := cache.ResourceEventHandlerFuncs{AddFunc: c.cache.onPodAdd, UpdateFunc: c.cache.onPodUpdate, DeleteFunc: c.cache.onPodDelete}
+		c.podH = podH
+		c.rsvH = reservationutil.NewReservationToPodEventHandler(podH, reservationutil.IsObjValidActiveReservation)
+		malformed := r.Chance(1, 4)
+		if malformed {
+			h.Tag("stream:malformed-shapes")
+		} else {
+			h.Tag("stream:well-formed")
+		}
+		ng := r.Range(2, 4)
+		perm := r.Perm(6)
+		c.mem = int64(r.Pick([]int64{16 << 30, 80 << 30}))
+		for i := 0; i < ng; i++ {
+			c.inv[0] = append(c.inv[0], c07Dev{minor: perm[i], healthy: i < 2 || !r.Chance(1, 8), res: c07Vec{100, c.mem, 100}, numa: -1})
+		}
+		sort.Slice(c.inv[0], func(i, j int) bool { return c.inv[0][i].minor < c.inv[0][j].minor })
+		c.applyInventory(false)
+
+		garbage := func() int { return int(r.Pick([]int64{c07ShPtrTomb, c07ShTombOther, c07ShNil, c07ShOther})) }
+		newPod := func(rsvID int) *c07EvPod {
+			id := c.nextPod
+			c.nextPod++
+			ms := c.healthyMinors()
+			if rv := c.findRsv(rsvID); rv != nil { // an owner pod sits on its reservation's GPUs
+				ms = nil
+				for _, a := range rv.g[0] {
+					ms = append(ms, a.minor)
+				}
+			}
+			g := c07Groups{0: nil}
+			k := 1
+			if len(ms) > 1 && r.Chance(1, 4) {
+				k = 2
+			}
+			pm := r.Perm(len(ms))
+			for i := 0; i < k; i++ {
+				g[0] = append(g[0], c07Alloc{minor: ms[pm[i]], vec: c.fracVec(int64(r.Pick([]int64{10, 10, 20, 25, 30})))})
+			}
+			return &c07EvPod{id: id, g: g, rsv: rsvID}
+		}
+		newRsv := func() *c07EvRsv {
+			id := c.nextRsv
+			c.nextRsv++
+			ms := c.healthyMinors()
+			g := c07Groups{0: nil}
+			k := 1
+			if len(ms) > 1 && r.Chance(1, 3) {
+				k = 2
+			}
+			pm := r.Perm(len(ms))
+			for i := 0; i < k; i++ {
+				g[0] = append(g[0], c07Alloc{minor: ms[pm[i]], vec: c.fracVec(int64(r.Pick([]int64{40, 50, 60, 100})))})
+			}
+			pol := schedulingv1alpha1.ReservationAllocatePolicyDefault
+			switch r.Intn(3) {
+			case 1:
+				pol = schedulingv1alpha1.ReservationAllocatePolicyAligned
+			case 2:
+				pol = schedulingv1alpha1.ReservationAllocatePolicyRestricted
+			}
+			return &c07EvRsv{id: id, g: g, policy: pol}
+		}
+		// warm-up: a few pods so that read-only cycles have victims that share GPUs
+		for i, k := 0, r.Range(2, 4); i < k; i++ {
+			c.evPodAdd(c07ShObj, newPod(0))
+		}
+		if r.Chance(2, 5) { // a reservation with two or three owner pods on its GPUs
+			rv := newRsv()
+			c.evRsvAdd(c07ShObj, rv, true, true, true)
+			for i, k := 0, r.Range(2, 3); i < k; i++ {
+				c.evPodAdd(c07ShObj, newPod(rv.id))
+			}
+			h.Tag("warmup:reservation-with-owners")
+		}
+		steps := r.Range(5, 11)
+		if h.Tier == "thorough" && r.Chance(1, 10) {
+			steps = r.Range(11, 24)
+		}
+		deletes := 0
+		for s := 0; s < steps; s++ {
+			x := r.Intn(100)
+			switch {
+			case x < 18: // a pod appears (plain, or an owner of a live reservation)
+				rsvID := 0
+				if len(c.rsvs) > 0 && r.Chance(2, 3) {
+					rsvID = c.rsvs[r.Intn(len(c.rsvs))].id
+				}
+				np := newPod(rsvID)
+				if malformed && r.Chance(1, 4) {
+					c.evPodAdd(garbage(), np)
+					c.nextPod-- // nothing happened
+					continue
+				}
+				c.evPodAdd(c07ShObj, np)
+				if rsvID != 0 {
+					h.Tag("op:owner-pod-add")
+				}
+			case x < 26: // a reservation becomes available (or an event the filter must drop)
+				rv := newRsv()
+				switch {
+				case malformed && r.Chance(1, 4):
+					c.evRsvAdd(garbage(), rv, true, true, true)
+				case r.Chance(1, 6):
+					c.evRsvAdd(c07ShObj, rv, r.Bool(), r.Bool(), r.Bool())
+				default:
+					c.evRsvAdd(c07ShObj, rv, true, true, true)
+				}
+			case x < 33: // pod update: resync with the same annotation, or the pod terminated
+				if len(c.pods) == 0 {
+					continue
+				}
+				pp := c.pods[r.Intn(len(c.pods))]
+				if malformed && r.Chance(1, 3) {
+					so, sn := c07ShObj, garbage()
+					if r.Bool() {
+						so, sn = sn, so
+					}
+					c.evPodUpdate(so, sn, pp, r.Bool())
+					continue
+				}
+				term := r.Chance(1, 3)
+				c.evPodUpdate(c07ShObj, c07ShObj, pp, term)
+				if term {
+					deletes++
+				}
+			case x < 48: // pod delete in one of the delivery shapes
+				if len(c.pods) == 0 {
+					continue
+				}
+				pp := c.pods[r.Intn(len(c.pods))]
+				if malformed && r.Chance(1, 2) {
+					c.evPodDelete(garbage(), pp) // ignored; the well-formed delete may follow
+					if r.Bool() {
+						continue
+					}
+				}
+				shape := c07ShObj
+				if r.Chance(2, 5) {
+					shape = c07ShTomb
+				}
+				c.evPodDelete(shape, pp)
+				deletes++
+				if pp.rsv != 0 {
+					h.Tag("op:owner-pod-delete")
+				}
+			case x < 56: // reservation update / delete
+				if len(c.rsvs) == 0 {
+					continue
+				}
+				rv := c.rsvs[r.Intn(len(c.rsvs))]
+				switch y := r.Intn(10); {
+				case y < 2:
+					c.evRsvUpdate(rv, false)
+				case y < 4:
+					c.evRsvUpdate(rv, true)
+					deletes++
+				case y < 7:
+					c.evRsvDelete(c07ShObj, rv)
+					deletes++
+				case y < 9:
+					c.evRsvDelete(c07ShTomb, rv)
+					deletes++
+				default:
+					if malformed {
+						c.evRsvDelete(garbage(), rv)
+					}
+				}
+			case x < 80: // preemption dry-run over the live pods (>= 3 victims when there are that many)
+				if len(c.pods) == 0 {
+					continue
+				}
+				cy := c.beginCycle()
+				if !cy.preFilter {
+					continue
+				}
+				pm := r.Perm(len(c.pods))
+				k := len(pm)
+				if k > 3 && r.Bool() {
+					k = r.Range(3, k)
+				}
+				var removed []*c07EvPod
+				for _, i := range pm[:k] {
+					pp := c.pods[i]
+					rsvID := pp.rsv
+					if rsvID == 0 && len(c.rsvs) > 0 && r.Chance(1, 8) {
+						rsvID = c.rsvs[r.Intn(len(c.rsvs))].id // the cache names a reservation the pod is not recorded in
+					}
+					c.dryPod(cy, true, pp.id, rsvID)
+					removed = append(removed, pp)
+				}
+				if r.Chance(1, 6) {
+					c.dryPod(cy, true, 70+r.Intn(5), 0) // a victim the cache does not know
+				}
+				c.dryFilter(cy)
+				// reprieve some victims
+				for _, pp := range removed {
+					if r.Chance(1, 3) {
+						c.dryPod(cy, false, pp.id, pp.rsv)
+					}
+				}
+				if r.Bool() {
+					c.dryFilter(cy)
+				}
+				h.Tag(fmt.Sprintf("ro:victims:%d", k))
+			default: // reservation restore (+ Filter, + dry-run removal of owner pods)
+				if len(c.rsvs) == 0 {
+					continue
+				}
+				cy := c.beginCycle()
+				if !cy.preFilter {
+					continue
+				}
+				var matched, unmatched []*c07EvRsv
+				for _, rv := range c.rsvs {
+					if r.Chance(2, 3) {
+						matched = append(matched, rv)
+					} else {
+						unmatched = append(unmatched, rv)
+					}
+				}
+				if r.Chance(1, 3) { // owner pods are removed first (preemption inside a reservation)
+					for _, pp := range c.pods {
+						if pp.rsv != 0 && r.Bool() {
+							c.dryPod(cy, true, pp.id, pp.rsv)
+						}
+					}
+				}
+				c.restore(cy, matched, unmatched)
+				c.dryFilter(cy)
+				if r.Chance(1, 3) {
+					for _, pp := range c.pods {
+						if pp.rsv != 0 && r.Bool() {
+							c.dryPod(cy, true, pp.id, pp.rsv)
+						}
+					}
+					c.dryFilter(cy)
+				}
+			}
+		}
+		if c.roSteps > 0 && deletes > 0 {
+			h.Nontrivial()
+		}
+		h.End()
+	}
+	h.Close("one history per case on one node with 2-4 GPUs through the real informer handlers (pod and reservation, wired as registerPodEventHandler does): " +
+		"pod add / resync / terminated / delete delivered as *Pod or as cache.DeletedFinalStateUnknown by value, reservation add (valid/invalid, active/inactive) / update / Succeeded / delete (object, tombstone), " +
+		"1 case in 4 with shapes client-go never delivers (pointer tombstone, tombstone of another type, nil, other object); in between read-only cycles: PreFilter + RemovePod over all or >= 3 live pods sharing GPUs + Filter + AddPod + Filter, " +
+		"PreRestoreReservation + RestoreReservation over the live reservations with their owner pods + Filter + RemovePod of owner pods; the whole book is re-read after every read-only step. " +
+		"non-trivial = at least one read-only step and one delete; distinct by op list")
 }
